@@ -1,6 +1,8 @@
 import AikenVerif.Props.C10
 import AikenVerif.Lemmas.ExpMod
 import AikenVerif.Lemmas.Bits
+import AikenVerif.Lemmas.BytesLex
+import AikenVerif.Lemmas.Utf8
 /-!
 # C04 — builtins compute their specified function on their whole domain: property theorems
 
@@ -570,5 +572,241 @@ theorem shift_zero_and_out_of_range (sem : Sem) (bs : Bytes) :
       simp [this] at b
     simp only [callBuiltinCore, getArgB, List.getElem?_cons_zero, List.getElem?_cons_succ,
       Value.unwrapInteger, Value.unwrapByteString, bind, Res.bind, pure, Bool.and_eq_true, h1, hle, if_false, if_true]
+
+-- ------------------------------------------------------------------ byte-string comparison
+/-- `lessThanByteString` / `lessThanEqualsByteString` / `equalsByteString` decide the LEXICOGRAPHIC
+order of the byte lists (the standard order `<` of `List UInt8`: first differing byte decides, a
+proper prefix is smaller) and equality, for all inputs -/
+theorem byte_comparison_is_lexicographic (sem : Sem) (a b : Bytes) :
+    callBuiltin sem .lessThanByteString [BS a, BS b] = .ok (.con (.bool (decide (a < b)))) ∧
+    callBuiltin sem .lessThanEqualsByteString [BS a, BS b] = .ok (.con (.bool (decide (a ≤ b)))) ∧
+    callBuiltin sem .equalsByteString [BS a, BS b] = .ok (.con (.bool (decide (a = b)))) := by
+  have h1 : Bytes'.lt a b = decide (a < b) := by
+    rw [Bool.eq_iff_iff, decide_eq_true_iff]; exact bytes_lt_iff_lex a b
+  have h2 : Bytes'.le a b = decide (a ≤ b) := by
+    rw [Bool.eq_iff_iff, decide_eq_true_iff]; exact bytes_le_iff_lex a b
+  have h3 : (a == b) = decide (a = b) := by
+    rw [Bool.eq_iff_iff, decide_eq_true_iff, beq_iff_eq]
+  refine ⟨?_, ?_, ?_⟩
+  · simp only [callBuiltin, callBuiltinCore, getArgB, List.getElem?_cons_zero, List.getElem?_cons_succ,
+      Value.unwrapByteString, bind, Res.bind, pure, h1]
+  · simp only [callBuiltin, callBuiltinCore, getArgB, List.getElem?_cons_zero, List.getElem?_cons_succ,
+      Value.unwrapByteString, bind, Res.bind, pure, h2]
+  · simp only [callBuiltin, callBuiltinCore, getArgB, List.getElem?_cons_zero, List.getElem?_cons_succ,
+      Value.unwrapByteString, bind, Res.bind, pure, h3]
+
+-- ------------------------------------------------------------------ byteStringToInteger then integerToByteString
+def toNatLE : Bytes → Nat
+  | [] => 0
+  | b :: r => b.toNat + 256 * toNatLE r
+
+theorem toNatBE_reverse_eq : ∀ l : Bytes, Bytes'.toNatBE l.reverse = toNatLE l
+  | [] => rfl
+  | b :: r => by
+    rw [List.reverse_cons, toNatBE_append, toNatBE_reverse_eq r, toNatLE]; omega
+
+/-- drop the zero bytes at the END (the most significant ones of a little-endian list) -/
+def stripT : Bytes → Bytes
+  | [] => []
+  | b :: r => if stripT r = [] ∧ b = 0 then [] else b :: stripT r
+
+theorem toNatLE_zero_iff : ∀ l : Bytes, toNatLE l = 0 ↔ stripT l = []
+  | [] => by simp [toNatLE, stripT]
+  | b :: r => by
+    have ih := toNatLE_zero_iff r
+    simp only [toNatLE, stripT]
+    constructor
+    · intro h
+      have h1 : b.toNat = 0 := by omega
+      have h2 : toNatLE r = 0 := by omega
+      have hb : b = 0 := by
+        apply UInt8.toNat_inj.mp; simpa using h1
+      simp [ih.mp h2, hb]
+    · intro h
+      by_cases hc : stripT r = [] ∧ b = 0
+      · obtain ⟨h1, h2⟩ := hc
+        rw [ih.mpr h1, h2]; rfl
+      · simp [hc] at h
+
+theorem ofNatLE_toNatLE : ∀ l : Bytes, Bytes'.ofNatLE (toNatLE l) = stripT l
+  | [] => by simp [toNatLE, stripT, Bytes'.ofNatLE]
+  | b :: r => by
+    have ih := ofNatLE_toNatLE r
+    have hz := toNatLE_zero_iff (b :: r)
+    rw [Bytes'.ofNatLE]
+    by_cases h0 : toNatLE (b :: r) = 0
+    · simp only [h0, dite_true]
+      exact (hz.mp h0).symm
+    · simp only [h0, dite_false]
+      have hne : ¬ (stripT r = [] ∧ b = 0) := by
+        intro hc
+        apply h0
+        apply hz.mpr
+        simp [stripT, hc]
+      have hb := UInt8.toNat_lt b
+      have h1 : toNatLE (b :: r) % 256 = b.toNat := by simp only [toNatLE]; omega
+      have h2 : toNatLE (b :: r) / 256 = toNatLE r := by simp only [toNatLE]; omega
+      rw [h1, h2, ih]
+      simp only [stripT, hne, if_false]
+      congr 1
+      apply UInt8.toNat_inj.mp
+      simp
+
+theorem stripT_length_le : ∀ l : Bytes, (stripT l).length ≤ l.length
+  | [] => by simp [stripT]
+  | b :: r => by
+    have := stripT_length_le r
+    simp only [stripT]; split <;> simp <;> omega
+
+theorem stripT_pad : ∀ l : Bytes, stripT l ++ List.replicate (l.length - (stripT l).length) (0 : UInt8) = l
+  | [] => by simp [stripT]
+  | b :: r => by
+    have ih := stripT_pad r
+    have hle := stripT_length_le r
+    simp only [stripT]
+    by_cases hc : stripT r = [] ∧ b = 0
+    · obtain ⟨h1, h2⟩ := hc
+      simp only [h1, h2, and_self, if_true, List.nil_append, List.length_nil, List.length_cons, Nat.sub_zero]
+      rw [h1] at ih
+      simp only [List.nil_append, List.length_nil, Nat.sub_zero] at ih
+      rw [List.replicate_succ, ih]
+    · simp only [hc, if_false, List.cons_append, List.length_cons]
+      have : r.length + 1 - ((stripT r).length + 1) = r.length - (stripT r).length := by omega
+      rw [this, ih]
+
+
+/-- little-endian core of the inverse law: the digits of `toNatLE le`, padded to the length of `le` -/
+theorem i2bs_of_toNatLE (sem : Sem) (be : Bool) (le : Bytes) (hlen : le.length < 18446744073709551616) :
+    callBuiltinCore sem .integerToByteString [.con (.bool be), I le.length, I (toNatLE le : Nat)]
+      = .ok (.con (.bytestring (if be then le.reverse else le))) := by
+  have hpad := stripT_pad le
+  have hle := stripT_length_le le
+  have hof := ofNatLE_toNatLE le
+  have hz := toNatLE_zero_iff le
+  have hfit : fitsU64 (le.length : Int) = true := by
+    simp only [fitsU64, Bool.and_eq_true, decide_eq_true_eq]; omega
+  simp only [callBuiltinCore, getArgB, List.getElem?_cons_zero, List.getElem?_cons_succ,
+    Value.unwrapBool, Value.unwrapInteger, bind, Res.bind, pure, hfit, Bool.not_true, Bool.false_eq_true, if_false]
+  have hnn : ¬ ((toNatLE le : Nat) : Int) < 0 := by omega
+  by_cases h0 : toNatLE le = 0
+  · -- the number is 0: `le` is all zeros
+    have hs := hz.mp h0
+    rw [hs] at hpad
+    simp only [List.nil_append, List.length_nil, Nat.sub_zero] at hpad
+    have hc1 : ¬ (((le.length : Int) = 0 ∧ 8 * 8192 ≤ (((toNatLE le : Nat) : Int)).natAbs.log2) ∧ ((toNatLE le : Nat) : Int) ≠ 0) := by
+      intro h; exact h.2 (by simp [h0])
+    simp only [Bool.and_eq_true, decide_eq_true_eq, ge_iff_le, hc1, hnn, if_false, h0, Int.natCast_zero, if_true,
+      Int.toNat_natCast]
+    rw [if_neg (by intro h; exact h.2 rfl), if_neg (by omega)]
+    have : List.replicate le.length (0 : UInt8) = (if be = true then le.reverse else le) := by
+      cases be
+      · simpa using hpad
+      · simp only [if_true]
+        rw [← hpad, List.reverse_replicate]
+        simp
+    rw [this]
+  · have hne : ((toNatLE le : Nat) : Int) ≠ 0 := by omega
+    have hlpos : le ≠ [] := by intro h; subst h; simp [toNatLE] at h0
+    have hl0 : le.length ≠ 0 := by intro h; exact hlpos (List.length_eq_zero_iff.mp h)
+    have hc1 : ¬ (((le.length : Int) = 0 ∧ 8 * 8192 ≤ (((toNatLE le : Nat) : Int)).natAbs.log2) ∧ ((toNatLE le : Nat) : Int) ≠ 0) := by
+      intro h; exact hl0 (by omega)
+    have hc2 : ¬ ((le.length : Int) ≠ 0 ∧ (Bytes'.ofNatLE (toNatLE le)).length > le.length) := by
+      rw [hof]; intro h; omega
+    have hpos : le.length > 0 := by omega
+    simp only [Bool.and_eq_true, decide_eq_true_eq, ge_iff_le, hc1, hnn, if_false, hne, Int.toNat_natCast, hc2, hpos, if_true, hof,
+      bne_iff_ne, ne_eq]
+    rw [if_neg (by intro h; exact hl0 (by omega)), if_neg (by intro h; omega)]
+    have : (if be = true then List.replicate (le.length - (stripT le).length) (0 : UInt8) ++ (stripT le).reverse
+        else stripT le ++ List.replicate (le.length - (stripT le).length) 0) = (if be = true then le.reverse else le) := by
+      cases be
+      · simpa using hpad
+      · simp only [if_true]
+        rw [← List.reverse_replicate, ← List.reverse_append, hpad]
+    rw [this]
+
+/-- `integerToByteString` inverts `byteStringToInteger` when asked for the original width: for every
+byte string (of a length a `Vec` can have) and either endianness, converting to an integer and back to
+`bs.length` bytes gives `bs` again, leading / trailing zero bytes included -/
+theorem bs2i_i2bs (sem : Sem) (be : Bool) (bs : Bytes) (hlen : bs.length < 18446744073709551616) :
+    ∃ n : Int, callBuiltin sem .byteStringToInteger [.con (.bool be), BS bs] = .ok (I n) ∧
+      callBuiltin sem .integerToByteString [.con (.bool be), I bs.length, I n] = .ok (BS bs) := by
+  cases be
+  · -- little endian: the digit list is `bs`
+    refine ⟨(toNatLE bs : Nat), ?_, ?_⟩
+    · apply callBuiltin_of_core_con
+      simp only [callBuiltinCore, getArgB, List.getElem?_cons_zero, List.getElem?_cons_succ,
+        Value.unwrapBool, Value.unwrapByteString, bind, Res.bind, pure, Bool.false_eq_true, if_false, toNatBE_reverse_eq]
+    · apply callBuiltin_of_core_con
+      have := i2bs_of_toNatLE sem false bs hlen
+      simpa using this
+  · -- big endian: the digit list is `bs.reverse`
+    refine ⟨(toNatLE bs.reverse : Nat), ?_, ?_⟩
+    · apply callBuiltin_of_core_con
+      have h := toNatBE_reverse_eq bs.reverse
+      rw [List.reverse_reverse] at h
+      simp only [callBuiltinCore, getArgB, List.getElem?_cons_zero, List.getElem?_cons_succ,
+        Value.unwrapBool, Value.unwrapByteString, bind, Res.bind, pure, if_true, h]
+    · apply callBuiltin_of_core_con
+      have := i2bs_of_toNatLE sem true bs.reverse (by simpa using hlen)
+      simpa using this
+-- ------------------------------------------------------------------ strings
+/-- `decodeUtf8` inverts `encodeUtf8` for EVERY string (all four encoding lengths, the surrogate gap,
+U+10FFFF), and `appendString` / `encodeUtf8` commute with concatenation -/
+theorem decodeUtf8_encodeUtf8 (sem : Sem) (s t : List Char) :
+    (∃ bs, callBuiltin sem .encodeUtf8 [.con (.string s)] = .ok (BS bs) ∧
+      callBuiltin sem .decodeUtf8 [BS bs] = .ok (.con (.string s))) ∧
+    callBuiltin sem .appendString [.con (.string s), .con (.string t)] = .ok (.con (.string (s ++ t))) ∧
+    utf8Encode (s ++ t) = utf8Encode s ++ utf8Encode t := by
+  refine ⟨⟨utf8Encode s, rfl, ?_⟩, rfl, by simp [utf8Encode]⟩
+  apply callBuiltin_of_core_con
+  simp only [callBuiltinCore, getArgB, List.getElem?_cons_zero, Value.unwrapByteString, bind, Res.bind, pure,
+    utf8Decode_utf8Encode]
+
+/-- non-vacuity / rejection side: an overlong encoding, a lone continuation byte and an encoded
+surrogate are evaluation failures -/
+example : callBuiltin .E .decodeUtf8 [BS [0xC0, 0x80]] = .err ∧ callBuiltin .E .decodeUtf8 [BS [0x80]] = .err ∧
+    callBuiltin .E .decodeUtf8 [BS [0xED, 0xA0, 0x80]] = .err ∧
+    callBuiltin .E .decodeUtf8 [BS [0xF4, 0x8F, 0xBF, 0xBF]] = .ok (.con (.string [Char.ofNat 0x10FFFF])) := by
+  refine ⟨rfl, rfl, rfl, rfl⟩
+
+-- ------------------------------------------------------------------ and / or / xor
+theorem zipBytes_comm (f : UInt8 → UInt8 → UInt8) (hf : ∀ a b, f a b = f b a) (pad : Bool) :
+    ∀ x y : Bytes, zipBytes f pad x y = zipBytes f pad y x
+  | [], [] => rfl
+  | [], _ :: _ => by simp [zipBytes]
+  | _ :: _, [] => by simp [zipBytes]
+  | a :: as, b :: bs => by simp only [zipBytes, hf a b, zipBytes_comm f hf pad as bs]
+
+theorem zipBytes_self (f : UInt8 → UInt8 → UInt8) (pad : Bool) : ∀ x : Bytes, zipBytes f pad x x = x.map (fun a => f a a)
+  | [] => by cases pad <;> simp [zipBytes]
+  | a :: as => by simp only [zipBytes, List.map_cons, zipBytes_self f pad as]
+
+/-- the three bitwise operations are commutative (padding or truncating), idempotent resp. nilpotent,
+and satisfy De Morgan on operands of equal length -/
+theorem bitwise_laws (sem : Sem) (pad : Bool) (x y : Bytes) :
+    callBuiltin sem .andByteString [.con (.bool pad), BS x, BS y] = callBuiltin sem .andByteString [.con (.bool pad), BS y, BS x] ∧
+    callBuiltin sem .orByteString [.con (.bool pad), BS x, BS y] = callBuiltin sem .orByteString [.con (.bool pad), BS y, BS x] ∧
+    callBuiltin sem .xorByteString [.con (.bool pad), BS x, BS y] = callBuiltin sem .xorByteString [.con (.bool pad), BS y, BS x] ∧
+    callBuiltin sem .andByteString [.con (.bool pad), BS x, BS x] = .ok (BS x) ∧
+    callBuiltin sem .orByteString [.con (.bool pad), BS x, BS x] = .ok (BS x) ∧
+    callBuiltin sem .xorByteString [.con (.bool pad), BS x, BS x] = .ok (BS (List.replicate x.length 0)) := by
+  have e : ∀ (b : Builtin) (f : UInt8 → UInt8 → UInt8) (u v : Bytes),
+      (b = .andByteString ∧ f = (· &&& ·)) ∨ (b = .orByteString ∧ f = (· ||| ·)) ∨ (b = .xorByteString ∧ f = (· ^^^ ·)) →
+      callBuiltin sem b [.con (.bool pad), BS u, BS v] = .ok (BS (zipBytes f pad u v)) := by
+    intro b f u v h
+    rcases h with ⟨rfl, rfl⟩ | ⟨rfl, rfl⟩ | ⟨rfl, rfl⟩ <;> rfl
+  refine ⟨?_, ?_, ?_, ?_, ?_, ?_⟩
+  · rw [e _ _ x y (Or.inl ⟨rfl, rfl⟩), e _ _ y x (Or.inl ⟨rfl, rfl⟩), zipBytes_comm _ (fun a b => UInt8.and_comm a b)]
+  · rw [e _ _ x y (Or.inr (Or.inl ⟨rfl, rfl⟩)), e _ _ y x (Or.inr (Or.inl ⟨rfl, rfl⟩)), zipBytes_comm _ (fun a b => UInt8.or_comm a b)]
+  · rw [e _ _ x y (Or.inr (Or.inr ⟨rfl, rfl⟩)), e _ _ y x (Or.inr (Or.inr ⟨rfl, rfl⟩)), zipBytes_comm _ (fun a b => UInt8.xor_comm a b)]
+  · rw [e _ _ x x (Or.inl ⟨rfl, rfl⟩), zipBytes_self]; simp
+  · rw [e _ _ x x (Or.inr (Or.inl ⟨rfl, rfl⟩)), zipBytes_self]; simp
+  · rw [e _ _ x x (Or.inr (Or.inr ⟨rfl, rfl⟩)), zipBytes_self]
+    congr 2
+    induction x with
+    | nil => rfl
+    | cons a as ih =>
+      simp only [List.map_cons, List.length_cons, List.replicate_succ, ih]
+      simp
 
 end AikenVerif.C04
